@@ -57,7 +57,7 @@ def run(rep):
     tier, rng = rep.tier, Rng(rep.seed)
     broken = []
     import rust2coq
-    translator, gen_files = rust2coq.step(["numbers", "justification"], ["theories/Properties/C02Gen.v"], broken)
+    translator, gen_files = rust2coq.step(rust2coq.REPLICA_STEP, rust2coq.REPLICA_PROPS, broken)
     files = prop_files() + gen_files
     po = common.proof_obligations(files)
     po["files"] = files
